@@ -11,6 +11,7 @@ from collections import Counter
 
 import core
 import used
+import past
 from core import fseq, fseqs, fbool, pseq, pseqs, guarded
 
 PROP = "C13"
@@ -53,8 +54,9 @@ def worker_init():
     from permuta import cli
 
 
-def _container(kind, perms):
-    perms = [Perm(p) for p in perms]
+def _container(kind, perms, mk=None):
+    """mk: None = fresh Perm objects; otherwise the factory of objects with a past (past.mkperm)"""
+    perms = [Perm(p) for p in perms] if mk is None else [mk(p, i) for i, p in enumerate(perms)]
     if kind == "list":
         return perms
     if kind == "tuple":
@@ -83,8 +85,33 @@ def _clear():
     IEP._CACHE.clear()
 
 
-def _call(op, kind, perms):
-    return fbool(_fn(op)(_container(kind, perms)))
+def _call(op, kind, perms, mk=None):
+    return fbool(_fn(op)(_container(kind, perms, mk)))
+
+
+def _mk(p, salt=0):
+    """a Perm with a past (fresh / used / derived from a used object through another API route); sequences that
+    are not permutations are built directly"""
+    return past.mkperm(p, salt) if len(p) <= 410 and used.is_perm(p) else Perm(p)     # (using a Perm is quadratic in its length)
+
+
+_FINITE_CLASSES = [((0, 1), (1, 0)), ((0, 1, 2), (1, 0)), ((0, 1), (2, 1, 0)), ((0, 1, 2), (2, 1, 0)), ((0, 1, 2, 3), (1, 0)),
+                   ((0, 1, 2, 3), (2, 1, 0)), ((0, 1, 2), (3, 2, 1, 0)), ((0, 1), (3, 2, 1, 0))]
+_INFINITE_CLASSES = [((0, 2, 1),), ((1, 0, 2),), ((1, 2, 0),), ((2, 0, 1),), ((0, 1, 3, 2),), ((1, 3, 0, 2),), ((2, 0, 3, 1),),
+                     ((3, 1, 0, 2),)]
+
+
+def _churn_line(a):
+    """the `av` lines evaluated after histories of short-lived class objects: a deterministic 1 in 40; run() moves
+    them into the LAST stream, because those histories reset the library's instance cache and the other streams must
+    keep accumulating class objects undisturbed (eviction / recycling of long-lived instances is a history too)"""
+    return used.sel("av", list(a), 40)
+
+
+def _churn_av(classes):
+    """short-lived class objects: created, asked every verdict, dropped (instance cache reset, garbage collected)"""
+    qs = [lambda c: c.is_finite(), lambda c: c.is_polynomial(), lambda c: c.is_insertion_encodable()]
+    used.churn(lambda b: Av([Perm(p) for p in b]), qs, classes, Av.clear_cache)
 
 
 def _cli(fn, text):
@@ -145,6 +172,20 @@ def impl(op, a):
             again = _call(op, a[0], perms)      # tables filled by the previous call
             if not (warm == cold == again):
                 return "HISTORY-DEPENDENT warm=%s cold=%s again=%s" % (warm, cold, again)
+            big = any(len(p) > 8 for p in perms)
+            if big or used.sel(op, a, 16):
+                # the same value as objects with a past (used / derived from a used object by another API route)
+                derived = _call(op, a[0], perms, _mk)
+                if derived != cold:
+                    return "OBJECT-DEPENDENT fresh=%s derived=%s" % (cold, derived)
+            if a[0] == "list" and perms and (big or used.sel(op, a, 12)):
+                # argument aliasing: the caller's list grows / shrinks in place between two calls
+                fn = lambda l: fbool(_fn(op)(l))        # noqa: E731
+                ps = [Perm(p) for p in perms]
+                grown = used.grown_list(fn, ps)
+                shrunk = used.shrunk_list(fn, ps, [Perm((0, 1)), Perm((2, 1, 0))])
+                if not (grown == shrunk == cold):
+                    return "ALIASING fresh=%s grown-in-place=%s shrunk-in-place=%s" % (cold, grown, shrunk)
             return cold
         return guarded(f)
     if op == "enum":
@@ -158,7 +199,12 @@ def impl(op, a):
                     {"fin": pick.is_finite, "poly": pick.is_polynomial, "ins": pick.is_insertion_encodable}[a[0]]()
                 except Exception:  # pylint: disable=broad-except
                     pass
-            return _av_twice(lambda: Av([Perm(p) for p in pseqs(a[1])]), a[0])
+            make = lambda: _av_twice(lambda: Av([_mk(p, i) for i, p in enumerate(pseqs(a[1]))]), a[0])  # noqa: E731
+            if not _churn_line(a):
+                return make()
+            # the verdict after two different histories of short-lived class objects (all finite / all infinite
+            # classes, dropped and collected): a class object at a recycled address must not inherit anything
+            return used.after_histories(make, [lambda: _churn_av(_FINITE_CLASSES), lambda: _churn_av(_INFINITE_CLASSES)])
         return guarded(f)
     if op == "avmesh":
         def f():
@@ -204,7 +250,7 @@ def impl(op, a):
             outs = []
             for tok in a[1:]:
                 o, kind, b = tok.split(".")
-                outs.append(_call(o, kind, pseqs(b)))
+                outs.append(_call(o, kind, pseqs(b), _mk if len(b) > 40 else None))
             return "|".join(outs)
         return guarded(f)
     if op == "bad":
@@ -268,7 +314,58 @@ def _layered12(n):
     return _LAYERED[n]
 
 
+def _mono_len(up, l):
+    """length of the longest monotone prefix of l (adjacent comparisons: for a sequence equivalent to all pairs)"""
+    k = min(len(l), 1)
+    while k < len(l) and ((l[k - 1] < l[k]) if up else (l[k - 1] > l[k])):
+        k += 1
+    return k
+
+
+def _classes_long(p):
+    """the same ten classes for LONG permutations in linear time (the definitions above are cubic and the set of
+    layered permutations is exponential): a monotone-a prefix / monotone-b suffix split exists iff the longest
+    monotone-a prefix reaches the start of the longest monotone-b suffix; the value-wise juxtapositions are the
+    position-wise ones of the inverse (the positions of the values < k in value order are inverse[:k]); a sum of
+    1's and 21's is read off block by block.  Cross-checked against `_classes_def` on every permutation of length
+    <= 7 at the start of each run (run() -> _selftest_classes)."""
+    p = tuple(p)
+    n = len(p)
+    res = set()
+    for base, q in ((0, p), (4, _inv(p))):
+        r = q[::-1]
+        pre = {True: _mono_len(True, q), False: _mono_len(False, q)}
+        # the longest suffix monotone-b is the reverse of the longest prefix of the reversal monotone-(not b)
+        suf = {True: n - _mono_len(False, r), False: n - _mono_len(True, r)}
+        for t, (a, b) in enumerate([(True, True), (True, False), (False, True), (False, False)]):
+            if suf[b] <= pre[a]:
+                res.add(base + t)
+    for cls, q in ((8, p), (9, p[::-1])):
+        i = 0
+        while i < n:
+            if q[i] == i:
+                i += 1
+            elif q[i] == i + 1 and i + 1 < n and q[i + 1] == i:
+                i += 2
+            else:
+                break
+        if i == n:
+            res.add(cls)
+    return res
+
+
+def _selftest_classes():
+    for n in range(8):
+        for p in itertools.permutations(range(n)):
+            if _classes_def(p) != _classes_long(p):
+                raise AssertionError("oracle self-test: _classes_long differs from the definitions on %r" % (p,))
+
+
 def _classes(p):
+    return _classes_long(p) if len(p) > 9 else _classes_def(p)
+
+
+def _classes_def(p):
     """which of the ten minimal non-polynomial classes contain p (independent definitions)"""
     res = set()
     for t, (a, b) in enumerate([(True, True), (True, False), (False, True), (False, False)]):
@@ -303,10 +400,16 @@ def _v_poly(B):
 
 
 def _v_insr(B):
+    if any(len(p) > 9 for p in B):
+        got = set().union(*[_classes(p) for p in B])
+        return {0, 1, 2, 3} <= got
     return all(any(_juxt_h(a, b, p) for p in B) for a in (True, False) for b in (True, False))
 
 
 def _v_insm(B):
+    if any(len(p) > 9 for p in B):
+        got = set().union(*[_classes(p) for p in B])
+        return {4, 5, 6, 7} <= got
     return all(any(_juxt_v(a, b, p) for p in B) for a in (True, False) for b in (True, False))
 
 
@@ -627,9 +730,128 @@ def _rand_basis(rng, lo=3, hi=9, kmax=6):
     return [_structured_perm(rng, rng.randrange(lo, hi + 1)) for _ in range(rng.randrange(1, kmax + 1))]
 
 
+def _end_miss(rng, p):
+    """one adjacent transposition at the very beginning or the very end (a defect planted near the ends)"""
+    n = len(p)
+    if n < 2:
+        return p
+    i = rng.choice([0, n - 2, n - 2, max(0, n - 3)])
+    return p[:i] + (p[i + 1], p[i]) + p[i + 2:]
+
+
+def _witness_basis(rng, lo, hi, short=False):
+    """a basis meeting all ten classes by construction (one long witness per class; with `short`, some witnesses are
+    short permutations), possibly with one witness dropped or spoilt near an end"""
+    def ln():
+        return rng.randrange(3, 6) if short and rng.random() < 0.5 else rng.randrange(lo, hi + 1)
+    B = []
+    for a in (True, False):
+        for b in (True, False):
+            n = ln()
+            k = rng.choice([0, 1, n // 2, n - 1, n, rng.randrange(n + 1)])
+            left = sorted(rng.sample(range(n), k), reverse=not a)
+            right = sorted(set(range(n)) - set(left), reverse=not b)
+            B.append(tuple(left + right))
+            n = ln()
+            k = rng.choice([0, 1, n // 2, n - 1, n, rng.randrange(n + 1)])
+            left = sorted(rng.sample(range(n), k), reverse=not a)
+            right = sorted(set(range(n)) - set(left), reverse=not b)
+            B.append(_inv(tuple(left + right)))
+    B.append(_rand_layered(rng, ln()))
+    B.append(_rev(_rand_layered(rng, ln())))
+    r = rng.random()
+    if r < 0.3:
+        B.pop(rng.randrange(len(B)))
+    elif r < 0.55:
+        i = rng.randrange(len(B))
+        B[i] = _end_miss(rng, B[i])
+    rng.shuffle(B)
+    return B
+
+
+def _large_lines(rng, lo, hi, count, ops=OPS, sym=True, av=True, maxk=5):
+    # (Basis(...) / Av(...) decide containment between the basis elements: exponential for long elements, so the
+    #  `basis` container and the class wrappers stay at the first scale)
+    kinds = KINDS if av else [k for k in KINDS if k != "basis"]
+    """structured bases with LONG elements (lengths lo..hi): witnesses of the ten classes, long monotone pairs with
+    a defect planted near an end, bases mixing short and long elements, several long elements together, look-alike
+    pairs (same decimal concatenation / same first k entries / same entries modulo 10: used.lookalikes) in one
+    basis and in consecutive calls against one pair of memo tables"""
+    lines = []
+    for _ in range(count):
+        r = rng.random()
+        if r < 0.3:
+            B = _witness_basis(rng, lo, hi, short=rng.random() < 0.5)
+            if len(B) > 2 * maxk:
+                B = B[:2 * maxk]
+        elif r < 0.5:
+            n, m = rng.randrange(lo, hi + 1), rng.randrange(lo, hi + 1)
+            inc, dec = tuple(range(n)), tuple(range(m - 1, -1, -1))
+            q = rng.random()
+            if q < 0.3:
+                inc = _end_miss(rng, inc)
+            elif q < 0.6:
+                dec = _end_miss(rng, dec)
+            B = [inc, dec] + [_structured_perm(rng, rng.choice([3, 4, 5, rng.randrange(lo, hi + 1)])) for _ in range(rng.randrange(0, 3))]
+            rng.shuffle(B)
+        else:
+            B = [_structured_perm(rng, rng.randrange(lo, hi + 1)) for _ in range(rng.randrange(1, maxk + 1))]
+            if rng.random() < 0.5:
+                B += [_structured_perm(rng, rng.randrange(3, 7)) for _ in range(rng.randrange(1, 3))]
+                rng.shuffle(B)
+        r = rng.random()
+        fb = fseqs(B)
+        look = []
+        if r < 0.45:
+            p = max(rng.sample(B, min(2, len(B))), key=len)
+            look = [(p, q) for q in used.lookalikes(p, rng)[:4]]
+        if look and r < 0.45:
+            # a look-alike first, then the basis (and the other way round), against one pair of memo tables
+            p, q = rng.choice(look)
+            o = rng.choice(ops)
+            B2 = [q if x == p else x for x in B]
+            calls = ["%s.list.%s" % (o, fseqs([q])), "%s.%s.%s" % (o, rng.choice(kinds), fb),
+                     "%s.list.%s" % (o, fseqs(B2)), "%s.list.%s" % (o, fseqs([p]))]
+            if rng.random() < 0.5:
+                calls.reverse()
+            if o in ("insm", "ins"):
+                calls.insert(0, "insr.list.%s" % fseqs([q]))
+            lines.append("hist %s %s" % (rng.choice(["cold", "warm"]), " ".join(calls)))
+            lines.append("%s list %s" % (o, fseqs([p, q] + B[:2])))
+        elif r < 0.8 or not (sym or av):
+            lines.append("%s %s %s" % (rng.choice(ops), rng.choice(kinds), fb))
+        elif r < 0.9 and sym:
+            lines.append("sym8 %s %s" % (rng.choice(ops), fb))
+        elif av:
+            lines.append("av %s %s" % (rng.choice(["fin", "poly", "ins"]), fb))
+        else:
+            lines.append("%s list %s" % (rng.choice(ops), fb))
+    return lines
+
+
 def run(ctx):
+    deferred = []
+    orig = ctx.compare
+
+    def compare(stream, lines, **kw):
+        lines = list(lines)
+        keep = []
+        for l in lines:
+            t = l.split(" ")
+            (deferred if t[0] == "av" and _churn_line(t[1:]) else keep).append(l)
+        orig(stream, keep, **kw)
+    ctx.compare = compare
+    try:
+        _run(ctx)
+    finally:
+        ctx.compare = orig
+    ctx.compare("class-object-histories", deferred)
+
+
+def _run(ctx):
     rng = ctx.rng
     quick = ctx.tier == "quick"
+    _selftest_classes()
     ctx.exhaustive = True
     ctx.exhaustive_bound = ("all sets of <=3 permutations of length <=4 (6580): six verdicts on a list + %s other "
                             "container/order/duplication variants each, Av wrappers, CLI bodies, eight symmetric images, "
@@ -738,6 +960,16 @@ def run(ctx):
         rng.shuffle(B)
         lines.append("%s %s %s" % (rng.choice(OPS), rng.choice(KINDS), fseqs(B)))
     ctx.compare("random-structured", lines)
+    # ---- sizes the other streams never reach (memo keys, thresholds, recursion): long elements at several scales
+    f = 1 if quick else 6
+    lines = _large_lines(rng, 9, 14, 500 * f)
+    lines += _large_lines(rng, 21, 40, 260 * f, av=False)
+    lines += _large_lines(rng, 64, 70, 120 * f, av=False)
+    lines += _large_lines(rng, 190, 210, 24 * f, sym=False, av=False, maxk=3)
+    lines += _large_lines(rng, 395, 405, 10 * f, sym=False, av=False, maxk=2)
+    lines += _large_lines(rng, 997, 1003, 6 * f, ops=["fin"], sym=False, av=False, maxk=2)   # (is_polynomial recurses once per entry)
+    rng.shuffle(lines)
+    ctx.compare("large", lines)
     # ---- enumeration cross-check outside the table (brute force up to n = 6)
     lines = []
     for _ in range(150 if quick else 1500):
